@@ -26,7 +26,8 @@ struct Hist {
 }
 
 const NONCES: [u64; 3] = [0, 1, u64::MAX];
-const INT_NONCES: [u64; 2] = [7, (1u64 << 63) + 5];
+// one small nonce and two that exceed every field modulus (the integer is split into two field elements there)
+const INT_NONCES: [u64; 3] = [7, 0xFFFF_FFFF_0000_0002, u64::MAX - 1];
 const LGS: [u32; 8] = [1, 2, 3, 8, 16, 24, 31, 32];
 
 fn calls_json() -> Vec<Value> {
@@ -91,7 +92,7 @@ fn run_hist<B: StarkField, H: ElementHasher<BaseField = B>, D: DrawExt<B>>(hname
                 json!({"ev": "clz", "id": o.a, "nonce": n.to_le_bytes().to_vec(), "res": z, "calls": calls_json()})
             },
             "ints" => {
-                let n = INT_NONCES[(o.a as usize - 1) % 2];
+                let n = INT_NONCES[(o.a as usize - 1) % 3];
                 let m = o.b as usize;
                 let mut lg = LGS[(idx + i) % LGS.len()];
                 while (1u64 << lg) <= m as u64 {
